@@ -292,17 +292,56 @@ def triage(prop, profile, variant, binary, tier, verif_seed, v, needs_history_ru
     return ('violation', path)
 
 
+def regression_replays(prop):
+    """The minimised replays of the defects this property's check found earlier (regress/*.json; all fixed in /repo)
+    are re-executed first: a fixed defect that returns is reported at once, whatever the seed. Any failure counts -
+    line numbers inside violation classes move."""
+    import glob
+    found = []
+    n = 0
+    for f in sorted(glob.glob(os.path.join(B.VERIF, 'regress', '*.json'))):
+        with open(f) as fh:
+            doc = json.load(fh)
+        if doc.get('property') != prop:
+            continue
+        eng = doc.get('engine', 'simdev')
+        if eng == 'pysim':
+            from pysim import check as P
+            o = P.outcome_of(doc['minimised_trace'])
+        elif eng == 'simdev':
+            o = K.run_trace(B.build(doc.get('build_variant') or 'plain'), doc['minimised_trace'], timeout=HANG_S)
+        else:
+            continue
+        n += 1
+        if o.failed:
+            k = K.match_known(prop, o.vclass, doc['minimised_trace'], o.msg or '')
+            if k:
+                print('KNOWN-FINDING: property=%s %s' % (prop, k['what']))
+                continue
+            found.append((f, doc, o))
+    return n, found
+
+
 def run_sim_check(prop, tier, verif_seed, spec=None, runs_override=None):
     spec = spec or SIM_CHECKS[prop]
     t0 = time.time()
+    n_regress, regressed = regression_replays(prop)
+    if regressed:
+        f, doc, o = regressed[0]
+        v = {'run': -1, 'seed': 0, 'vclass': o.vclass, 'msg': o.msg or doc.get('message', ''), 'op': o.op, 'crash': o.kind == 'crash'}
+        path = K.write_replay(prop, doc.get('profile', 'regress'), tier, verif_seed, v, doc['minimised_trace'],
+                              doc['minimised_trace'], doc.get('build_variant') or 'plain', 0,
+                              {'engine': doc.get('engine', 'simdev'), 'regression_of': os.path.basename(f)})
+        print('VIOLATION property=%s replay=%s' % (prop, path))
+        K.log('[%s] a defect that was fixed has returned (%s): %s %s' % (prop, os.path.basename(f), o.vclass, o.msg))
     total = {'runs': 0, 'nontrivial': 0, 'counters': {}, 'cells': {}, 'samples': []}
     variants = []
     determinism = {'seeds_rerun': 0, 'mismatches': 0}
     known_printed = set()
     notes = []
-    violations = 0
-    exit_code = 0
-    for profile, variant in spec['profiles']:
+    violations = 1 if regressed else 0
+    exit_code = 1 if regressed else 0
+    for profile, variant in (spec['profiles'] if not regressed else []):
         binary = B.build(variant)
         variants.append(variant)
         d = determinism_slice(binary, profile, verif_seed)
@@ -449,6 +488,7 @@ def run_sim_check(prop, tier, verif_seed, spec=None, runs_override=None):
         'determinism_selfcheck': determinism,
         'notes': notes,
         'known_findings_seen': sorted(known_printed),
+        'regression_replays_executed': n_regress,
         'exhaustive': False,
     }
     if spec.get('extra_coverage'):
